@@ -122,6 +122,7 @@ func genConsts(root *pkgSrc) {
 	genSessionFacts(&sb)
 	genHandleGetFacts(root, &sb)
 	genSessionTableFacts(&sb)
+	genSessionExpiryFacts(&sb)
 	sb.WriteString("end Mcp.Gen\n")
 	writeIfChanged("SessionFacts.lean", sb.String())
 }
@@ -300,4 +301,114 @@ func genSessionTableFacts(b *strings.Builder) {
 		fmt.Fprintf(b, "(%s, %d, %s, %s)", leanStr(r.fn), r.locks, leanBool(r.writes), leanBool(r.excl))
 	}
 	b.WriteString("]\n")
+}
+
+// durationUnits: the time package's duration constants in nanoseconds.
+var durationUnits = map[string]int64{"Nanosecond": 1, "Microsecond": 1e3, "Millisecond": 1e6, "Second": 1e9, "Minute": 6e10, "Hour": 36e11}
+
+// genSessionExpiryFacts: how many nanoseconds of idle time the sweeper (`cleanupExpiredSessions`) grants per unit of the
+// `expirySeconds` argument of NewSessionManager: the right-hand side of the sweeper's `now.Sub(LastActivity) > E` is
+// evaluated symbolically as coefficient x expirySeconds (through `time.Duration(..)` conversions, products with `time.*`
+// constants and integer literals, and through a manager field set in the constructor's literal). 0 = not understood.
+func genSessionExpiryFacts(b *strings.Builder) {
+	sp := loadDir(filepath.Join(*repo, "internal", "session"))
+	ctor, _ := sp.funcDecl("NewSessionManager")
+	param := ""
+	fieldInit := map[string]ast.Expr{}
+	if ctor != nil && ctor.Type.Params != nil && len(ctor.Type.Params.List) == 1 && len(ctor.Type.Params.List[0].Names) == 1 {
+		param = ctor.Type.Params.List[0].Names[0].Name
+		ast.Inspect(ctor.Body, func(n ast.Node) bool {
+			switch x := n.(type) {
+			case *ast.KeyValueExpr:
+				if k, ok := x.Key.(*ast.Ident); ok {
+					fieldInit[k.Name] = x.Value
+				}
+			case *ast.AssignStmt:
+				for i, l := range x.Lhs {
+					if sel, ok := l.(*ast.SelectorExpr); ok && i < len(x.Rhs) {
+						fieldInit[sel.Sel.Name] = x.Rhs[i]
+					}
+				}
+			}
+			return true
+		})
+	}
+	var coef func(e ast.Expr, depth int) int64 // coefficient of param; 0 = unknown
+	var konst func(e ast.Expr) int64            // constant value; 0 = not a constant
+	konst = func(e ast.Expr) int64 {
+		switch x := e.(type) {
+		case *ast.ParenExpr:
+			return konst(x.X)
+		case *ast.BasicLit:
+			if v, err := strconv.ParseInt(x.Value, 0, 64); err == nil {
+				return v
+			}
+		case *ast.SelectorExpr:
+			if pk, ok := x.X.(*ast.Ident); ok && pk.Name == "time" {
+				return durationUnits[x.Sel.Name]
+			}
+		case *ast.BinaryExpr:
+			if x.Op == token.MUL {
+				return konst(x.X) * konst(x.Y)
+			}
+		case *ast.CallExpr:
+			if len(x.Args) == 1 && sp.text(x.Fun) == "time.Duration" {
+				return konst(x.Args[0])
+			}
+		}
+		return 0
+	}
+	coef = func(e ast.Expr, depth int) int64 {
+		if depth > 6 {
+			return 0
+		}
+		switch x := e.(type) {
+		case *ast.ParenExpr:
+			return coef(x.X, depth+1)
+		case *ast.Ident:
+			if x.Name == param && param != "" {
+				return 1
+			}
+		case *ast.CallExpr:
+			if len(x.Args) == 1 && (sp.text(x.Fun) == "time.Duration" || sp.text(x.Fun) == "int64" || sp.text(x.Fun) == "int") {
+				return coef(x.Args[0], depth+1)
+			}
+		case *ast.BinaryExpr:
+			if x.Op == token.MUL {
+				if c := konst(x.Y); c != 0 {
+					return coef(x.X, depth+1) * c
+				}
+				if c := konst(x.X); c != 0 {
+					return coef(x.Y, depth+1) * c
+				}
+			}
+		case *ast.SelectorExpr:
+			if init, ok := fieldInit[x.Sel.Name]; ok {
+				return coef(init, depth+1)
+			}
+		}
+		return 0
+	}
+	var perUnit, tick int64
+	comparisons := 0
+	if fd, _ := sp.funcDecl("SessionManager.cleanupExpiredSessions"); fd != nil {
+		ast.Inspect(fd.Body, func(n ast.Node) bool {
+			switch x := n.(type) {
+			case *ast.BinaryExpr:
+				if (x.Op == token.GTR || x.Op == token.GEQ) && strings.Contains(sp.text(x.X), ".Sub(") && strings.Contains(sp.text(x.X), "LastActivity") {
+					comparisons++
+					perUnit = coef(x.Y, 0)
+				}
+			case *ast.CallExpr:
+				if sp.text(x.Fun) == "time.NewTicker" && len(x.Args) == 1 {
+					tick = konst(x.Args[0])
+				}
+			}
+			return true
+		})
+	}
+	if comparisons != 1 {
+		perUnit = 0
+	}
+	fmt.Fprintf(b, "/-- the sweeper deletes a session idle for more than `sessionExpiryNsPerUnit` ns per unit of NewSessionManager's argument (documented: seconds); 0 = the comparison was not understood -/\ndef sessionExpiryNsPerUnit : Nat := %d\n/-- period of the sweeper's ticker in ns -/\ndef sessionSweepTickNs : Nat := %d\n", perUnit, tick)
 }
